@@ -359,7 +359,10 @@ func c17Copy(c *Ctx, rel string) {
 		const maskPhi = "phi(128, bin<>>>(cycle, 1))"
 		maskTop := plainEdges(edgesMatching(b, "bin<!=>(bin<&>(load(iaddr(p3, ind<+1>(0))), "+maskPhi+"), 0)"))
 		maskForm := !inner && len(edgesMatching(b, "bin<!=>("+maskPhi+", 0)")) == 1 && len(maskTop) > 0
-		inner = inner || maskForm
+		// … or read through a bit index walking from 7 down to 0: (k[i] >> bit) & 1
+		shiftTop := plainEdges(edgesMatching(b, "bin<!=>(bin<&>(bin<>>>(load(iaddr(p3, ind<+1>(0))), alt(ind<-1>(7), conv<uint>(ind<-1>(7)))), 1), 0)"))
+		shiftForm := !inner && !maskForm && len(edgesMatching(b, "bin<>=>(ind<-1>(7), 0)")) == 1 && len(shiftTop) > 0
+		inner = inner || maskForm || shiftForm
 		nRet := 0
 		for _, e := range ana.Exits(f) {
 			if e.Panic {
@@ -379,6 +382,9 @@ func c17Copy(c *Ctx, rel string) {
 			top := plainEdges(edgesMatching(b, "bin<>=>($byte, 128)")) // canonical form of every top-bit test of a byte (b&0x80 == 0x80, b&0x80 != 0, b>>7 != 0, b > 127)
 			if maskForm {
 				top = maskTop
+			}
+			if shiftForm {
+				top = shiftTop
 			}
 			okBody = mustPass(f, add[0].Block(), top) && !mustPass(f, dbl[0].Block(), top) && ana.InstrDominates(dbl[0], add[0])
 			at := b.CallTermAt(add[0])
@@ -413,7 +419,7 @@ func c17Copy(c *Ctx, rel string) {
 					}
 				}
 			}
-			okBody = okBody && (shl || maskForm)
+			okBody = okBody && (shl || maskForm || shiftForm)
 		}
 		r.Check(okBody, K("C17.scalar-loop.double-and-add"), c.P.Pos(f.Pos()), "per bit: acc = 2·acc; if top bit of the current byte: acc = B + acc (B with identity-aware z); byte <<= 1; acc starts at the point at infinity (0,0,0)")
 	}
